@@ -122,7 +122,11 @@ def validate_sessions(pid, name, sessions, chunk=None, timeout=1500, workers=Non
     t0 = time.time()
     common.run_bvh(["drive", sp, tp])
     t_drive = time.time() - t0
-    n = len(sessions)
+    # the harness may expand a session into several (interrupt sweeps): ids come from the trace
+    ids = [json.loads(l)["id"] for l in open(tp)]
+    n = len(ids)
+    if n == 0:
+        raise ToolError("no traces recorded for stage %s" % name)
     w = workers or common.TLC_WORKERS
     if chunk is None:
         chunk = max(1, min(40, n // (w * 4) + 1))
@@ -143,12 +147,14 @@ def validate_sessions(pid, name, sessions, chunk=None, timeout=1500, workers=Non
             if t == "ACCEPT":
                 acc.add(dct["id"])
             elif t == "STUCK":
-                stuck.setdefault(dct["id"], dct)
+                old = stuck.get(dct["id"])
+                if old is None or (dct["l"], dct.get("nint", 0)) > (old["l"], old.get("nint", 0)):
+                    stuck[dct["id"]] = dct
             elif t == "SKIP":
                 skip.setdefault(dct["id"], dct)
     traces = {}
     byid = {s["id"]: s for s in sessions}
-    rejected = [i for i in byid if i not in acc and i not in skip]
+    rejected = [i for i in ids if i not in acc and i not in skip]
     if rejected:
         with open(tp) as f:
             for line in f:
@@ -169,7 +175,7 @@ def validate_sessions(pid, name, sessions, chunk=None, timeout=1500, workers=Non
                 "" if not info.get("respok") else "; responses agree, the state probe differs")
         else:
             why += " (no behaviour of the specification reaches the end of the trace)"
-        st.failures.append({"case": byid[i], "why": why, "lines": lines,
+        st.failures.append({"case": rec.get("case") or byid.get(i) or byid.get(i.split("#")[0]), "why": why, "lines": lines,
                             "observed": cmdrec, "spec": info})
     st.evaluations = n
     st.validated = len(acc)
@@ -179,9 +185,16 @@ def validate_sessions(pid, name, sessions, chunk=None, timeout=1500, workers=Non
     st.notes[name] = {"sessions": n, "accepted": len(acc), "out_of_model": st.skipped,
                       "rejected": len(rejected), "drive_wall_s": round(t_drive, 1),
                       "tlc_wall_s": round(r["wall"], 1), "trace_states": r["distinct"], "chunk": chunk}
-    if sessions and len(acc):
-        first = next(s for s in sessions if s["id"] in acc)
-        st.samples.append({"session": [render_cmd(c) for c in first["cmds"]][:12], "verdict": "accepted"})
+    if len(acc):
+        want = next(i for i in ids if i in acc)
+        with open(tp) as f:
+            for line in f:
+                rec = json.loads(line)
+                if rec["id"] == want:
+                    st.samples.append({"session": rec["id"], "verdict": "accepted by the specification",
+                                       "commands": [{"entered": c["text"], "interrupt_after_opcodes": c["cmd"].get("int_after"),
+                                                     "response": brief_resp(c["resp"])} for c in rec["cmds"]][:14]})
+                    break
     return st
 
 
@@ -274,11 +287,14 @@ def check_C08(tier, seed):
                                "harness renderer and comparator are trusted"])
 
 
-def gen_sessions(seed, n, prefix, **kw):
+def gen_sessions(seed, n, prefix, err_rate=None, layout=True, **kw):
     import gen
     out = []
     for i in range(n):
         g = gen.Gen(seed * 100003 + i, **kw)
+        g.layout = layout
+        if err_rate is not None:
+            g.err_rate = err_rate
         out.append(g.session("%s-%d-%d" % (prefix, seed, i)))
     return out
 
@@ -373,7 +389,73 @@ def check_C12(tier, seed):
              "properties; every transition is a session whose whole probe is compared after each command")
 
 
-CHECKS = {"C12": check_C12, "C08": check_C08, "C01": check_C01, "C04": check_C04, "C06": check_C06}
+def tlc_mc(pid, module, cfg, timeout=1800, workers=None):
+    """a pure model-checking stage (properties of the specification itself)"""
+    st = Stage()
+    r = common.run_tlc(pid, module, os.path.join(SPEC, cfg), timeout=timeout, workers=workers)
+    st.states = r["distinct"]
+    st.transitions = r["generated"]
+    st.notes[cfg] = {"tlc_wall_s": round(r["wall"], 1), "distinct": r["distinct"], "generated": r["generated"]}
+    if r["violated"]:
+        raise ToolError("TLC reports a property violation on the specification (%s): %s; see %s"
+                        % (cfg, r["violated"], r["out"]))
+    if not r["ok"]:
+        raise ToolError("TLC failed on %s: %s; see %s" % (cfg, r["error"], r["out"]))
+    st.exhaustive = True
+    return st
+
+
+def check_C13(tier, seed):
+    import ast as A
+    t0 = time.time()
+    quick = tier == "quick"
+    st0 = tlc_mc("C13", "MC_C13.tla", "MC_C13_%s.cfg" % tier, timeout=3000)
+    st1, sess = tlc_sessions("C13", "MC_C01.tla", "MC_C01_quick.cfg", timeout=3000,
+                             keep=lambda d: not d.get("oom"))
+    stride = 40 if quick else 4
+    pick = sess[seed % stride::stride]
+    sweeps = []
+    for i, s_ in enumerate(pick):
+        d = dict(s_)
+        run_idx = next(j for j, c in enumerate(d["cmds"]) if c["k"] == "direct")
+        d["sweep"] = {"cmd": run_idx, "max": 60 if quick else 400,
+                      "inspect": A.direct(A.pr(A.var("A"), ";")) if i % 2 == 0 else None}
+        sweeps.append(d)
+    st2 = validate_sessions("C13", "sweep", sweeps, timeout=3000, exhaustive=True)
+    # seeded random programs: every interruption point (bounded), with inspection
+    rnd = gen_sessions(seed, 25 if quick else 300, "C13r", err_rate=0.0, layout=False)
+    rs = []
+    for i, s_ in enumerate(rnd):
+        d = dict(s_)
+        run_idx = next(j for j, c in enumerate(d["cmds"]) if c["k"] == "direct")
+        d["sweep"] = {"cmd": run_idx, "max": 40 if quick else 300,
+                      "inspect": A.direct(A.pr(A.var("N%"), ";", A.var("M%"), ";")) if i % 2 == 0 else None}
+        rs.append(d)
+    st3 = validate_sessions("C13", "rndsweep", rs, timeout=3000)
+    # quantum independence: the same sessions with different execute() budgets
+    qs = []
+    base = gen_sessions(seed + 7, 12 if quick else 150, "C13q") + pick[:40 if quick else 400]
+    for q in (1, 2, 3, 5, 7, 64, 5000):
+        for s_ in base:
+            d = dict(s_)
+            d["id"] = "%s@q%d" % (s_["id"], q)
+            d["quantum"] = q
+            qs.append(d)
+    st4 = validate_sessions("C13", "quantum", qs, timeout=3000)
+    return finish("C13", tier, seed, "model_checking", [st0, st1, st2, st3, st4], t0,
+                  rule="(1) TLC checks on the specification that, for every program of the bounded grammar, every placement "
+                       "of up to MaxInts interrupts (each optionally followed by an inspecting direct statement) and every "
+                       "STOP, continued by CONT, yields the output and store of the uninterrupted reference run; (2) on the "
+                       "code, for each sampled program the uninterrupted run is single-stepped to count its N opcodes and "
+                       "for every k in 1..N a session 'interrupt after k opcodes, [inspect], CONT, run to the end' is "
+                       "recorded and validated (TLC chooses the statement boundary, pinned by the probe at the interrupt); "
+                       "(3) the same sessions are recorded under quanta 1,2,3,5,7,64,5000 and must all be behaviours of the "
+                       "same deterministic specification; non-trivial = accepted sessions in which an interrupt was delivered",
+                  assumptions=ASSUME_SESS + ["the BREAK line number is not compared (the property exempts the message)"],
+                  nontrivial=st2.nontrivial + st3.nontrivial)
+
+
+CHECKS = {"C13": check_C13, "C12": check_C12, "C08": check_C08, "C01": check_C01, "C04": check_C04, "C06": check_C06}
 for _p in ("C09", "C10", "C11", "C17"):
     CHECKS[_p] = prog_check(_p)
 
@@ -389,6 +471,19 @@ def replay(pid, path):
     """re-run one saved failing case against the current tree"""
     obj = json.load(open(path))
     case = obj.get("case", obj)
+    if "cmds" in case:
+        case = dict(case)
+        case.setdefault("id", "replay")
+        st = validate_sessions(pid, "replay", [case], chunk=1, workers=1)
+        if st.failures:
+            f = st.failures[0]
+            log("VIOLATION property=%s replay=%s" % (pid, path))
+            log("   why: %s" % f["why"])
+            for i, ln in enumerate(f.get("lines") or []):
+                log("   %2d %s" % (i + 1, ln))
+            return 1
+        log("replay passes: %s (%d accepted, %d out of model)" % (path, st.validated, st.skipped))
+        return 0
     d = common.outdir(pid)
     tmp = os.path.join(d, "replay_one.ndjson")
     with open(tmp, "w") as f:
